@@ -335,7 +335,7 @@ theorem fast_path_requires_no_args :
     Gen.Vinegar.stopFastPathExists = true ∧ Gen.Vinegar.stopFastPathRequiresNoArgs = true := gen_fastPath_shape
 
 /-- formatting the traceback is guarded in `dump`, `_send_exception` has its fallback, and the fallback's traceback
-field is a literal (generated from the AST: anything computed there fails the translation) -/
+texts are constants (observed by the generator: texts that vary with the exception or the switches fail the translation) -/
 theorem failure_paths_present : Gen.Vinegar.tbFormatGuarded = true ∧ Gen.Vinegar.fallbackExists = true :=
   ⟨gen_tbFormatGuarded, gen_fallbackExists⟩
 
